@@ -553,7 +553,9 @@ def gen_secret(rng):
 
 
 def gen_attribute(rng, v=None):
-    k = rng.randrange(5)
+    k = rng.randrange(6 if (v is not None and v >= KV.KMIP_1_4) else 5)
+    if k == 5:
+        return kdrv.attr('SENSITIVE', rng.choice([True, False]))
     if k == 0:
         idx = None if (v is not None and v >= KV.KMIP_2_0) else rng.choice([None, 0, 1, 2])
         return kdrv.attr('NAME', kdrv.name_value(gen_text(rng, 1, 12)), idx)
@@ -829,7 +831,8 @@ def p_get(rng, v, shape=None):
 
 def p_get_attributes(rng, v):
     return payloads.GetAttributesResponsePayload(unique_identifier=gen_uid(rng),
-                                                 attributes=[gen_attribute(rng, v) for _ in range(rng.randint(1 if v >= KV.KMIP_2_0 else 0, 4))])
+                                                 attributes=[gen_attribute(rng, v) for _ in range(rng.randint(1 if v >= KV.KMIP_2_0 else 0, 4))] +
+                                                 ([kdrv.attr('SENSITIVE', rng.choice([True, False]))] if v >= KV.KMIP_1_4 and rng.random() < 0.6 else []))
 
 
 def p_get_attribute_list(rng, v):
